@@ -12,6 +12,7 @@ import (
 
 func init() {
 	explain("C04", "Static necessary conditions of 'no wedge', decided exhaustively over the source: monitor discipline of every sync.Cond whose predicate is lock-protected (Wait in a re-checking loop under the cond's lock; every producer-side write of a predicate field is under that lock and followed by Signal/Broadcast before release); heartbeat presence and POLARITY for the two lock-free event pools (Broadcast guarded by waiters>0 ∧ inUse<capacity, siblings agree) and Broadcast in back(); the charge/re-charge protocol of streams; the blocked-stream time-out machinery; the batcher's flush heartbeat; the batch worker never takes the fill lock. "+
+		"Also: a processor counts as active for as long as it owns a stream and the processor pool doubles when all are active (the rescue when every processor waits behind a multi-line action); no capacity unit of either event pool can be lost (rules shared with C05). "+
 		"NOT decided: any bound on time, fairness of the scheduler.",
 		"go/types, go/ssa and x/tools call resolution are correct", "lock identity is by access path", "sync.Once.Do runs its argument synchronously once",
 		"C04.R6 stops at invoke edges of OutputPlugin.Out: that edge enters another output instance (dead queue) whose batcher is a different object")
@@ -22,6 +23,9 @@ func init() {
 	reg("C04", "C04.R5", "E2+E3", "batcher flush heartbeat: goroutine started, takes the fill lock, re-evaluates readiness incl. age; reset restarts the clock", 1, ruleFlushHeartbeat)
 	reg("C04", "C04.R6", "E1", "batch worker never reaches a Lock of the fill lock", 1, ruleWorkerNoFillLock)
 	reg("C04", "C04.R7", "E1+E2", "processor pool growth: a processor counts as active for the whole ownership of a stream; the pool doubles when all are active", 3, ruleProcPoolGrowth)
+	reg("C04", "C04.R8", "E2+E8", "no capacity unit of the low-memory pool is lost: admission / undo / one Dec per back (same rule as C05.R3)", 1, ruleLowMemAdmission)
+	reg("C04", "C04.R9", "E2+E8", "no capacity unit of the standard pool is lost (same rule as C05.R4)", 1, ruleStdPoolBalance)
+	reg("C04", "C04.R10", "E2", "no event leaks out of In without being streamed or given back (same rule as C05.R2)", 1, ruleGetStreamOrBack)
 }
 
 type condField struct {
